@@ -35,6 +35,11 @@
 (*                             UID acknowledged as expunged / moved away    *)
 (*                             does not come back; every new binding is     *)
 (*                             above all earlier ones (C04, maildir half)   *)
+(*   C15_AckedSameUid          a message that is still served is served     *)
+(*                             under the UID it was acknowledged with: no   *)
+(*                             message appears under a never-given UID in a *)
+(*                             folder of known UIDVALIDITY unless a         *)
+(*                             delivery into it was in flight               *)
 (*   C15_ControlFilesReadable  every control file parses and the restarted  *)
 (*                             server answers every dump command with OK,   *)
 (*                             without BYE / SERVERBUG                      *)
@@ -225,6 +230,15 @@ Dump(ev) ==
       ProbeLow(b) == \E i \in DOMAIN b.probe :
                         b.probe[i].v = b.v /\ (\/ b.probe[i].uid <= Max(AllUids(b))
                                                \/ (b.next # 0 /\ b.probe[i].uid < b.next))
+      \* Messages come from deliveries only.  A message under a UID that was never given out
+      \* (not acknowledged, not seen before) in a folder whose UIDVALIDITY is a known one, while
+      \* no delivery into that folder was in flight, is an old message under a NEW UID: e.g. an
+      \* EXPUNGE killed after it dropped the records and before it removed the files.
+      DeliversInto(f) == \/ I.op = "append" /\ I.f = f
+                         \/ I.op \in {"copy", "move"} /\ I.g = f
+      KnownV(b) == \E x \in seenE : x[1] = b.f /\ x[2] = b.v
+      Stranger(b, m) == Bound(b, m) = {} /\ KnownV(b) /\ ~DeliversInto(b.f)
+      stranger == \E b \in B : \E m \in Msgs(b) : Stranger(b, m)
       reuse == \E b \in B : \/ Twice(b) \/ NextLow(b) \/ ProbeLow(b)
                             \/ \E m \in Msgs(b) : Conflict(b, m) \/ Resurrected(b, m) \/ NotAbove(b, m)
       nocreate == ev.listed /\ ~(createdE \subseteq F)
@@ -237,6 +251,7 @@ Dump(ev) ==
      ELSE IF lost # {} THEN Fail("C15_AckedSurvive")
      ELSE IF flagless # {} THEN Fail("C15_AckedFlagsPersist")
      ELSE IF reuse THEN Fail("C15_NoUidReuse")
+     ELSE IF stranger THEN Fail("C15_AckedSameUid")
      ELSE IF nocreate THEN Fail("C15_AckedCreatesPersist")
      ELSE IF nosub THEN Fail("C15_AckedSubscriptionsPersist")
      ELSE /\ used' = used \cup tolerated
